@@ -650,7 +650,7 @@ HARNESSES = [
             timeout=(280, 1500), goals=RG + ('taken-between-arrivals',)),
     Harness('router[timed polls]', h_router,
             quick=dict(n=2, funcs=('CRTP', 'APP'), receivers=('CRTP', 'APP'), late=('CRTP',), polls=True),
-            thorough=dict(n=3, funcs=('CONSOLE', 'CRTP', 'APP'), receivers=('CRTP', 'APP'), late=('CRTP', 'APP'), polls=True),
+            thorough=dict(n=3, funcs=('CRTP', 'APP'), receivers=('CRTP', 'APP'), late=('CRTP',), polls=True),
             timeout=(280, 1500), goals=('poll-timed-out-before-arrival', 'taken-between-arrivals', 'fifo-two-same-function'),
             note='receivers poll with a timeout (as the CRTP drivers do); a poll that runs out on an empty queue must not lose the '
                  'packets that arrive before the next poll'),
